@@ -70,6 +70,8 @@ def strategy(tier):
       'proto': st.sampled_from(['thriftmux', 'thriftmux', 'kafka']),
       # None: the real bound (2^24-1); else a small one, so that histories reach the end of the tag space
       'pool_max': st.sampled_from([None, None, None, 5, 8]),
+      # where the connection's tag counter stands when the history starts (just below 2^8, 2^15, 2^16, 2^16 + 2^15, 2^23)
+      'tag_base': st.sampled_from([None, None, None, 250, 32762, 65530, 98300, 2 ** 23 - 4]),
       'ops': sized_list(weighted(*pairs), 0, 70 if tier == 'quick' else 200),
   })
   pool = st.fixed_dictionaries({
@@ -196,6 +198,12 @@ class Run(object):
     advance(0.02)
     if not ar.ready() or ar.exception or self.transport.state != ChannelState.Open:
       self.fail('open-failed', 'transport did not open')
+    self.tag_floor = 1
+    if self.plan.get('tag_base') and not self.plan.get('pool_max'):
+      # a long-lived connection: the tag counter already stands at a high-water mark (earlier tags were abandoned in transit)
+      self.transport._tag_pool._next = max(self.transport._tag_pool._next, self.plan['tag_base'])
+      self.tag_floor = self.transport._tag_pool._next
+      self.max_tag_seen = self.tag_floor
     if self.plan.get('pool_max') and not early:
       # a connection whose tag space is nearly used up, scaled down: the same TagPool class with a small bound
       # (the transport creates its pool when it opens)
@@ -251,7 +259,7 @@ class Run(object):
     if tag > self.max_tag_seen:
       self.max_tag_seen = tag
     alloc = len([x for x in self.reqs if x.conn == self.gen and not x.freed])
-    if tag > 1 + max(self.peak, alloc):
+    if tag > self.tag_floor + max(self.peak, alloc):
       self.fail('tag-consumption', 'tag %d written although at most %d tags were ever allocated at once on this connection' % (
           tag, max(self.peak, alloc)))
 
